@@ -50,7 +50,8 @@ macro_rules! decode_total {
         #[kani::stub(core::str::from_utf8, stub_from_utf8)]
         fn $name() {
             let mut buf: [u8; $len] = kani::any();
-            $( let prefix: &[u8] = &[$($p),*]; let mut i = 0; while i < prefix.len() { buf[i] = prefix[i]; i += 1; } )?
+            // straight-line prefix assignment (a copy loop would need an unwind bound of its own)
+            $( let mut i = 0; $( buf[i] = $p; i += 1; )* let _ = i; )?
             $( kani::assume(buf[0] != $nf); )?
             set_input_len($len);
             let r = <$ty as Readable<LE>>::read_from_buffer(&buf);
